@@ -403,6 +403,16 @@ def gen_unsupported(tree, fname: str, coq_name: str) -> str:
         if not ok:
             raise Broken(f"translator(C09): {fname}: unsupported branch", ast.unparse(st)[:300])
         exc = st.body[0].exc
+        if (isinstance(exc, ast.Call) and isinstance(exc.func, ast.Name) and not exc.args
+                and all(kw.arg in ("lineno", "filepath", "token", "message") for kw in exc.keywords)
+                and all(isinstance(kw.value, ast.Constant) or ast.unparse(kw.value) == "self.current_filepath()"
+                        or (isinstance(kw.value, ast.Call) and ast.unparse(kw.value.func) == "p.lineno")
+                        for kw in exc.keywords)):
+            # built directly from the position of the statement: no attribute of p[k] is read
+            # (the p.lineno(k) index is covered by the index analysis of the action)
+            rows.append(f"({cstr(st.test.args[1].id)}, {cstr(exc.func.id)}, None) "
+                        f"(* parser.py:{st.body[0].lineno} *)")
+            continue
         if not (isinstance(exc, ast.Call) and isinstance(exc.func, ast.Attribute) and exc.func.attr == "from_token"
                 and isinstance(exc.func.value, ast.Name) and not exc.args and len(exc.keywords) == 1
                 and exc.keywords[0].arg == "token"):
@@ -412,7 +422,7 @@ def gen_unsupported(tree, fname: str, coq_name: str) -> str:
         if not (isinstance(tok, ast.Subscript) and ast.unparse(tok.value) == "p" and isinstance(tok.slice, ast.Constant)
                 and isinstance(tok.slice.value, int)):
             raise Broken(f"translator(C09): {fname}: from_token argument is not p[k]", ast.unparse(st)[:300])
-        rows.append(f"({cstr(st.test.args[1].id)}, {cstr(exc.func.value.id)}, {tok.slice.value}) "
+        rows.append(f"({cstr(st.test.args[1].id)}, {cstr(exc.func.value.id)}, Some {tok.slice.value}) "
                     f"(* parser.py:{st.body[0].lineno} *)")
     last = body[-1]
     if not (isinstance(last, ast.Raise) and isinstance(last.exc, ast.Call) and isinstance(last.exc.func, ast.Name)):
@@ -421,9 +431,9 @@ def gen_unsupported(tree, fname: str, coq_name: str) -> str:
         for n in ast.walk(st):
             if isinstance(n, ast.Assign) and any(ast.unparse(t) == "p[0]" for t in n.targets):
                 raise Broken(f"translator(C09): {fname}: assigns p[0] (the model takes p[0] to be None here)")
-    return (f"(* parser.py:{fn.lineno}-{fn.end_lineno}  (isinstance class of p[1], error raised, k of the p[k] "
-            f"given to from_token) *)\n"
-            f"Definition {coq_name} : list (string * string * Z) :=\n  [ " + "\n  ; ".join(rows) + " ].\n"
+    return (f"(* parser.py:{fn.lineno}-{fn.end_lineno}  (isinstance class of p[1], error raised, Some k: the p[k] "
+            f"given to from_token / None: the error is built from the statement's own position) *)\n"
+            f"Definition {coq_name} : list (string * string * option Z) :=\n  [ " + "\n  ; ".join(rows) + " ].\n"
             f"Definition {coq_name}_final : string := {cstr(last.exc.func.id)}.")
 
 
